@@ -253,10 +253,34 @@ fn catalogue() -> Vec<(Case, bool)> {
         ("fn f(p) {\n    return p\n}\nf(1)\np += 1\n", "", vec![DiagPred::Pos{line: 5, col: 1}]),
         ("print(1)\nzz = 1\n", "1\n", vec![DiagPred::Pos{line: 2, col: 1}]),
     ];
-    let errs: Vec<(String, &str, Vec<DiagPred>)> = errs.into_iter().chain(errs0.into_iter().map(|(a, b, c)| (a.to_string(), b, c))).collect();
+    let mut errs: Vec<(String, &str, Vec<DiagPred>)> = errs.into_iter().chain(errs0.into_iter().map(|(a, b, c)| (a.to_string(), b, c))).collect();
+    // The earlier declaration far to the right and far down: three-digit
+    // (and four-digit) lines and columns, multi-byte text before it.
+    for lines_before in [0usize, 1, 99, 127, 128, 255, 256, 300, 1023, 1024, 5000] {
+        for width in [0usize, 1, 99, 127, 128, 254, 255, 256, 257, 300, 511, 512, 1000, 4100] {
+            if lines_before > 300 && width > 300 && (lines_before + width) % 2 == 1 {
+                continue;
+            }
+            let mut src = String::new();
+            for k in 0..lines_before {
+                src.push_str(if k % 2 == 0 { "# é\n" } else { "\n" });
+            }
+            // `pad := "ééé…"; count := 1` — `count` starts at column width + 11.
+            let text: String = std::iter::repeat('é').take(width).collect();
+            src.push_str(&format!("pad := \"{text}\"; count := 1\n"));
+            let decl_line = lines_before + 1;
+            let decl_col = 7 + width + 2 + 2 + 1;
+            for (redecl, col2) in [("count := 2\n", 1u32), ("  fn count() {\n    return 0\n}\n", 6), ("[a, count] := [1, 2]\n", 5)] {
+                let s = format!("{src}{redecl}");
+                let preds = vec![DiagPred::Pos{line: decl_line as u32 + 1, col: col2}, DiagPred::MsgContains(vec!["count".into(), format!("{decl_line}:{decl_col}")])];
+                errs.push((s, "", preds));
+            }
+        }
+    }
     for (s, o, mut preds) in errs {
         let mut e = Expect::err(o.as_bytes().to_vec());
         preds.insert(0, DiagPred::WellFormed{max_line: s.matches('\n').count() as u32 + 1});
+        let preds: Vec<DiagPred> = preds;
         e.diag = preds;
         out.push((Case{property: "C20".into(), kind: "catalogue".into(), srcs: vec![s.as_bytes().to_vec()], pred: Pred::Expect(e), note: "use before / after scope, redeclaration citing the earlier position, _ not readable".into()}, true));
     }
